@@ -19,7 +19,8 @@ import engcommon as ec
 import vp
 
 PID = "C06"
-KINDS = {"query_value", "read_value", "query_panicked", "no_progress", "executor_still_running_at_end"}
+KINDS = {"query_value", "read_value", "query_panicked", "no_progress", "executor_still_running_at_end",
+         "cycle_member_completed", "cycle_search_wrong_answer"}
 
 
 def run(tier, seed):
@@ -49,8 +50,32 @@ def run(tier, seed):
     gstates = int(m.group(1)) if m else 0
     traces = []
     tr = os.path.join(wd, "seq.ndjson")
-    ec.eng_seq(bd, tr, mode="replay", **{"in": cases})
+    ec.eng_seq(bd, tr, mode="replay", cyc=1, **{"in": cases})
     traces.append((tr, "sequential replay of TLC histories"))
+    # executors that read their two ring successors CONCURRENTLY (join_all) and yield after every read:
+    # on the single-threaded runtime the two paths really interleave, so a computing query can have two
+    # computing callees and paths merge before the closing edge.  The reference value of such programs
+    # depends on the interleaving; what is judged is the engine's own cycle search, observed through the
+    # cfg-guarded hook (`cyc` events): its answer, and that every query it saw on the cycle is cut short
+    famp = os.path.join(wd, "cyc_family_par.ndjson")
+    vp.run(["python3", os.path.join(vp.ROOT, "tools", "gen_cyc.py"), famp, str(seed),
+            "40" if quick else "400", "150" if quick else "3000", "--par"])
+    rp_ = vp.tlc("EngineObsGen", cfg="EngineObsGenSim.cfg", env={"FAMILY": famp, "SHARD": "0", "SHARDS": "1"},
+                 workers=1, timeout=1200,
+                 extra=["-simulate", f"num={1000 if quick else 15000}", "-depth", "60", "-seed", str(seed + 1)],
+                 check_ok=False)
+    casesp = os.path.join(wd, "cases_par.ndjson")
+    nbp = 0
+    with open(casesp, "w") as f:
+        for line in rp_["out"].splitlines():
+            if line.startswith('"{'):
+                f.write(json.loads(line) + "\n"); nbp += 1
+    if nbp == 0:
+        raise vp.ToolError("no behaviours generated for the parallel family:\n" + rp_["out"][-2000:])
+    for y in (1, 2):
+        trp = os.path.join(wd, f"seq_par_y{y}.ndjson")
+        ec.eng_seq(bd, trp, mode="replay", cyc=1, yields=y, **{"in": casesp})
+        traces.append((trp, f"parallel-callee family, executors yield {y}x after each read"))
     for i, (workers, tasks) in enumerate(((2, 4), (8, 12)) if quick else ((2, 3), (4, 8), (8, 16), (16, 32))):
         tc = os.path.join(wd, f"conc_{i}.ndjson")
         vp.run_subject([os.path.join(bd, "eng_conc"), "--kind", "file", "--progs", fam, "--workers", str(workers),
